@@ -297,10 +297,11 @@ def pwl_case(item, ctx=None):
       sl = {}
       if mono:
         sl["mono"] = np.diff(y) * mono
+      # a clamped side sits exactly ON its bound: that is feasible (no margin is possible there)
       if lo is not None:
-        sl["lo"] = np.array([y.min() - lo])
+        sl["lo"] = np.array([1.0 if (item["cmin"] and y.min() == lo) else y.min() - lo])
       if hi is not None:
-        sl["hi"] = np.array([hi - y.max()])
+        sl["hi"] = np.array([1.0 if (item["cmax"] and y.max() == hi) else hi - y.max()])
       if item["cmin"]:
         sl["cmin"] = np.array([-abs(y.min() - lo)]) if abs(y.min() - lo) > 0 else np.array([1.0])
       if item["cmax"]:
